@@ -171,9 +171,12 @@ func zzSurface(address string, audit bool) {
 	w.caller = caller
 	before := w.effects
 	snap := w.snapshot()
-	_, _ = zzCallAs(w, caller, c, address, method, str)
+	res, _ := zzCallAs(w, caller, c, address, method, str)
 	key := fmt.Sprintf("%T.%s", c, method)
 	zz.Observe("call", key)
+	if res != nil {
+		zz.NoAddress("C01.no-address-in-result:"+key, res.Result)
+	}
 	zz.Tag("C17.F-broker", address == zzBrokerAddr)
 	zz.Tag("C17.D13-register", key == "*contracts.InterchainManager.Register")
 	// (the label says "outsider" for every role: with these arguments - ids of chA's objects,
